@@ -142,9 +142,9 @@ def Reachable (ps : String) (w : World) : Prop :=
   ∃ nl al my es, (ps < my ∨ my < ps) ∧ okRun ps (World.init nl al my) es ∧ w = run (World.init nl al my) es
 
 theorem reachable_inv {ps : String} {w : World} (h : Reachable ps w) :
-    (ps < w.mySide ∨ w.mySide < ps) ∧ Inv ps [] w := by
+    (ps < w.mySide ∨ w.mySide < ps) ∧ Inv ps [] w ∧ TimerOk w := by
   obtain ⟨nl, al, my, es, hps, hok, rfl⟩ := h
-  refine ⟨by rw [run_mySide]; exact hps, run_inv es _ hps (init_inv nl al my) hok⟩
+  refine ⟨by rw [run_mySide]; exact hps, run_inv es _ hps (init_inv nl al my) (init_timerOk nl al my) hok⟩
 
 /-- **stop_from_every_state.**  In every reachable world — whatever the Manager and its Connectors
     are doing — if the Terminator is waiting for the RendezvousConnector, then `stoppedRC`
@@ -155,30 +155,31 @@ theorem stop_from_every_state {ps : String} {w : World} (h : Reachable ps w) (ht
     (step w (.term .stoppedRC)).2 = .done ∧
     (settle (step w (.term .stoppedRC)).1).ts = .S_stopped ∧
     (settle (step w (.term .stoppedRC)).1).closed = 1 := by
-  obtain ⟨hps, hinv⟩ := reachable_inv h
-  obtain ⟨hdone, hts'⟩ := stoppedRC_done hinv hts
-  have hinv' : Inv ps [] (step w (.term .stoppedRC)).1 := step_inv hps hinv _ trivial
+  obtain ⟨hps, hinv, htm⟩ := reachable_inv h
+  obtain ⟨hdone, hts'⟩ := stoppedRC_done hinv htm hts
+  have hinv' : Inv ps [] (step w (.term .stoppedRC)).1 := step_inv hps hinv htm _ trivial
+  have htm' : TimerOk (step w (.term .stoppedRC)).1 := (mm_step w _).2 htm
   have hps' : ps < (step w (.term .stoppedRC)).1.mySide ∨ (step w (.term .stoppedRC)).1.mySide < ps := by
     rw [step_mySide]; exact hps
   refine ⟨hdone, ?_⟩
   rcases hts' with e | e
-  · exact settle_closes hps' hinv' e
-  · exact settle_stays_closed hps' hinv' e
+  · exact settle_closes hps' hinv' htm' e
+  · exact settle_stays_closed hps' hinv' htm' e
 
 /-- the same at any later moment: whatever else happens after `Dilator.stop()` (further events in
     any order), completing cooperatively afterwards still ends in `S_stopped` / closed exactly once -/
 theorem stop_completes_after_any_interleaving {ps : String} {w : World} (h : Reachable ps w)
     (hts : w.ts = .S_stoppingD ∨ w.ts = .S_stopped) : (settle w).ts = .S_stopped ∧ (settle w).closed = 1 := by
-  obtain ⟨hps, hinv⟩ := reachable_inv h
+  obtain ⟨hps, hinv, htm⟩ := reachable_inv h
   rcases hts with e | e
-  · exact settle_closes hps hinv e
-  · exact settle_stays_closed hps hinv e
+  · exact settle_closes hps hinv htm e
+  · exact settle_stays_closed hps hinv htm e
 
 /-- `notify_stopped` has fired iff the Manager is STOPPED; `B.closed()` was called once iff the
     Terminator is `S_stopped`, and never more than once — at every point of every conformant run -/
 theorem notified_and_closed_exactly_once {ps : String} {w : World} (h : Reachable ps w) :
     (w.fired = true ↔ w.ms = .STOPPED) ∧ w.closed = (if w.ts = .S_stopped then 1 else 0) ∧ w.closed ≤ 1 := by
-  obtain ⟨_, hinv⟩ := reachable_inv h
+  obtain ⟨_, hinv, _⟩ := reachable_inv h
   refine ⟨hinv.fired.symm, hinv.tsC, ?_⟩
   have := hinv.tsC
   simp only [core] at this
@@ -194,7 +195,7 @@ theorem active_connection_armed {ps : String} {w : World} (h : Reachable ps w)
     ∃ c x, w.conn = some c ∧ w.conns[c]? = some x ∧
       ((x.lost = false ∧ x.obsMgr = true) ∨ Thunk.mgrLost ∈ w.queue) ∧
       (w.ms ≠ .CONNECTED → x.closing = true ∨ x.lost = true) := by
-  obtain ⟨_, hinv⟩ := reachable_inv h
+  obtain ⟨_, hinv, _⟩ := reachable_inv h
   obtain ⟨c, x, a, b, d, e⟩ := hinv.armed hs
   exact ⟨c, x, a, b, by simpa [core] using d, e⟩
 
@@ -235,11 +236,24 @@ theorem stop_tells_everything (g : Nat) (w : World) (st : Connector.State) (hst 
 
 /-- `abandon_connection` (the `stop` row of CONNECTED): the active connection is told to close and
     the ping timer is cancelled -/
-theorem abandon_drops_active (w : World) (c : Nat) (x : Conn) (hc : w.conn = some c) (hx : w.conns[c]? = some x) :
-    (mOut "" 0 .abandon_connection w).2 = none ∧ (mOut "" 0 .abandon_connection w).1.timer = false ∧
+theorem abandon_drops_active (w : World) (c : Nat) (x : Conn) (hc : w.conn = some c) (hx : w.conns[c]? = some x)
+    (htm : TimerOk w) :
+    (mOut "" 0 .abandon_connection w).2 = none ∧ (mOut "" 0 .abandon_connection w).1.timer = .none ∧
     ∃ y, (mOut "" 0 .abandon_connection w).1.conns[c]? = some y ∧ y.closing = true := by
-  refine ⟨by simp [mOut, hc], by simp [mOut, hc, disconnect], { x with closing := true }, ?_, rfl⟩
-  simp [mOut, hc, disconnect, List.getElem?_modify, hx]
+  rw [abandon_eval "" 0 w htm c hc]
+  exact ⟨rfl, rfl, { x with closing := true }, by simp [disconnect, List.getElem?_modify, hx], rfl⟩
+
+/-- the ping-timer handle is never left fired-but-not-cleared in a reachable world — unless the
+    expiry callback of the working tree does not clear it, in which case (`abandonSafe`,
+    `stopUsingSafe`, `pingSafe`, decided on the generated flags) every user of the handle asks
+    `.active()` first.  This is what `stop_from_every_state` needs in CONNECTED after the Leader's
+    second silent ping interval (`signal_reconnect`: the connection is only *asked* to close). -/
+theorem timer_handle_safe {ps : String} {w : World} (h : Reachable ps w) :
+    (w.timer = .fired → Flags.timer_expiry_clears_handle = false) ∧
+    (Flags.timer_expiry_clears_handle || Flags.abandon_checks_active) = true ∧
+    (Flags.timer_expiry_clears_handle || Flags.stop_using_checks_active) = true ∧
+    (Flags.timer_expiry_clears_handle || Flags.ping_timer_checks_active) = true :=
+  ⟨(reachable_inv h).2.2, abandonSafe, stopUsingSafe, pingSafe⟩
 
 /-! ## 5. late callbacks are harmless -/
 
@@ -253,7 +267,7 @@ theorem late_callbacks_harmless {ps : String} {w : World} (h : Reachable ps w) (
     let w' := run w es
     w'.ms = .STOPPED ∧ w'.ctors = w.ctors ∧ w'.listeners.length = w.listeners.length ∧
     w'.attempts.length = w.attempts.length ∧ w'.nextGen = w.nextGen ∧ w'.fired = true := by
-  obtain ⟨_, hinv⟩ := reachable_inv h
+  obtain ⟨_, hinv, _⟩ := reachable_inv h
   have hh : Halted w := ⟨hs, fun g hg => by have := (hinv.ctorB g hg).2; simp [core, hs] at this⟩
   have q := quiet_run es w hh
   have hf : w.fired = true := hinv.fired.mp hs
@@ -307,7 +321,7 @@ theorem old_peer_reported_replay (w : World) (v : Vers) (hc : w.called = false) 
   | some e => exact h1
   | none =>
     simp only [andThen]
-    have := mm_drainMsgs u'.pMsgs u' h1
+    have := (mm_drainMsgs u'.pMsgs u').1 h1
     rcases hr2 : drainMsgs u'.pMsgs u' with ⟨u'', e2⟩
     rw [hr2] at this
     cases e2 <;> exact this
@@ -420,5 +434,28 @@ example : (run fresh (standardRun "1000000000000000")).ms = .CONNECTED ∧
 
 /-- and closing it does end in `closed` after cooperative completion -/
 example : (settle (step (run fresh (standardRun "1000000000000000")) (.term .stoppedRC)).1).closed = 1 := by decide
+
+/-- the Leader's peer stays silent for two ping intervals: after the second expiry the TrafficTimer
+    has fired `signal_reconnect` (the connection is only *asked* to close, the Manager is still
+    CONNECTED), and the application closes before the transport reports the loss -/
+def silentPeerRun : List Ev :=
+  [.dilate, .key, .versions ⟨true, ["ged"]⟩, .msg (.please "1000000000000000"), .inbound 0, .kcm 0, .turn,
+   .expire, .expire, .term .close, .term .nameplate_done, .term .mailbox_done]
+
+theorem silentPeerRun_ok : okRun "1000000000000000" fresh silentPeerRun := by
+  simp [silentPeerRun, okRun, okEv, okMsg, fresh, World.init, step, dilate, replayKey, replayVersions, replayVersions?,
+    drainMsgs, andThen, ofRes, gotKey]
+  decide
+
+example : Reachable "1000000000000000" (run fresh silentPeerRun) :=
+  ⟨false, false, "8000000000000000", _, by decide, silentPeerRun_ok, rfl⟩
+
+example : (run fresh silentPeerRun).ms = .CONNECTED ∧ (run fresh silentPeerRun).ts = .S_stoppingRC ∧
+    (run fresh silentPeerRun).tt = some .connected ∧ (run fresh silentPeerRun).timer ≠ .pending ∧
+    ((run fresh silentPeerRun).conns[0]?.map (·.closing)) = some true ∧
+    ((run fresh silentPeerRun).conns[0]?.map (·.lost)) = some false := by decide
+
+example : (step (run fresh silentPeerRun) (.term .stoppedRC)).2 = .done ∧
+    (settle (step (run fresh silentPeerRun) (.term .stoppedRC)).1).closed = 1 := by decide
 
 end WV.Props.C17
